@@ -340,6 +340,10 @@ func c05Lib(i int64, seed uint64, r *fw.Rec) {
 			c05Structure(i, seed, r)
 			return
 		}
+		if i%27 == 15 {
+			c05Regex(i, seed, r)
+			return
+		}
 		c05Rebind(i, seed, r)
 		return
 	}
